@@ -253,10 +253,14 @@ def _is_index_search(fn):
     if len(body) != 1 or not isinstance(body[0], ast.For):
         return False
     f = body[0]
-    if not (isinstance(f.iter, ast.Call) and isinstance(f.iter.func, ast.Name) and f.iter.func.id == "range" and isinstance(f.target, ast.Name)):
+    if isinstance(f.iter, ast.Call) and isinstance(f.iter.func, ast.Name) and f.iter.func.id == "range" and isinstance(f.target, ast.Name):
+        ivar = f.target.id
+    elif isinstance(f.iter, ast.Call) and isinstance(f.iter.func, ast.Name) and f.iter.func.id == "enumerate" and len(f.iter.args) == 1 and isinstance(f.target, ast.Tuple) and len(f.target.elts) == 2 and isinstance(f.target.elts[0], ast.Name):
+        ivar = f.target.elts[0].id  # for i, c in enumerate(s): if <test on c>: return i
+    else:
         return False
     rets = [n for n in ast.walk(f) if isinstance(n, ast.Return)]
-    return bool(rets) and all(isinstance(r.value, ast.Name) and r.value.id == f.target.id for r in rets)
+    return bool(rets) and all(isinstance(r.value, ast.Name) and r.value.id == ivar for r in rets)
 
 
 def _is_pure_predicate(fn):
@@ -759,9 +763,12 @@ class Exec:
         outs = []
         for it, p in self.ev(it_expr, path, depth):
             w = p.word(it)
-            if w is not None:
+            pure_scan = w is not None and not self._grown_lists(s, p) and not [n for n in self._carried_names(s, p) if isinstance(p.env[n], W)]
+            if w is not None and not pure_scan:
                 outs.extend(self._fold(s, w, p, depth, enum))
             else:
+                # (a loop over text that grows no list and carries no string only reads it: elements become opaque values,
+                # so anything that tried to emit them would fail the caller's proof)
                 outs.extend(self._rebuild(s, p, depth))
         return outs
 
